@@ -626,7 +626,7 @@ def run_directed_programs(ctx, sc, asan, cov):
         if cls == "san":
             out[name] = "sanitizer-report"
             files["native.stderr"] = r.err
-            ctx.violation(san_key(sig), "directed program %s: sanitizer report %s in %s\n%s" % (name, sig[0], ",".join(sig[1]), detail[:1500]), files)
+            ctx.violation(san_key(sig) + "@" + name, "directed program %s: sanitizer report %s in %s\n%s" % (name, sig[0], ",".join(sig[1]), detail[:1500]), files)
         elif cls == "ran":
             if r.text() == exp_out and r.status == exp_exit:
                 out[name] = "clean+equal"
@@ -889,6 +889,8 @@ class DAGen:
             self.count("ax", d["k"])
             return True
         if k < 0.74:
+            if d["k"] == "t" and d["ssize"] is None:
+                return False             # reserve before the first struct push: known defect, see DIRECTED_HISTORIES
             want = r.choice([-1, 0, n, n + 1, 8, 9, 16, 17, 2 * n + 3, r.choice(BOUNDARY_LENS), 2000])
             self.h.c("av %d %d" % (s, want), "ok", n)
             self.count("av", d["k"])
@@ -1660,6 +1662,8 @@ def _dh(lines):
 DIRECTED_HISTORIES = {
     # dyn_array_clone() of an inline-struct array copies into a store that was never allocated (elem_size is not copied)
     "clone_struct_array": ["an 0 t", "ap 0 1122334455667788", "ap 0 0102030405060708", "ap 0 a1a2a3a4a5a6a7a8", "ak 1 0", "ad 1", "ad 0"],
+    # dyn_array_reserve() on a struct array that does not know its element size yet: realloc(p, 0) frees the store
+    "reserve_twice_empty_struct_array": ["an 0 t", "av 0 16", "av 0 2000", "af 0"],
     # elem_size is a uint8_t: a struct of 256 bytes does not fit
     "struct_size_256": ["an 0 t", "ap 0 " + "ab" * 256, "ag 0 0"],
     # gc_mark() reads an inline-struct array as an array of pointers
@@ -1684,6 +1688,7 @@ def directed_expected(name, lines):
     E = {
         "clone_struct_array": ["ok | len=0", "same | len=1", "same | len=2", "same | len=3", "ok | len=3",
                                "[1122334455667788 0102030405060708 a1a2a3a4a5a6a7a8] | len=3", "[1122334455667788 0102030405060708 a1a2a3a4a5a6a7a8] | len=3"],
+        "reserve_twice_empty_struct_array": ["ok | len=0", "ok | len=0", "ok | len=0", "ok"],
         "struct_size_256": ["ok | len=0", "same | len=1", "ab" * 256 + " | len=1"],
         "collect_small_struct_array": ["ok | len=0", "same | len=1", "same | len=2", "same | len=3", "same | len=4", "same | len=5", "ok | live=1",
                                        "[01020304 05060708 090a0b0c 0d0e0f10 11121314] | len=5"],
@@ -1963,7 +1968,7 @@ def run_directed_histories(ctx, sc, binp, cov):
         elif "inconclusive" in v:
             out[name] = "inconclusive"
         else:
-            key = v["key"] + ("@" + name if v["key"].startswith("model|") else "")
+            key = v["key"] + "@" + name          # a directed cell is one cause: the same signature elsewhere is news
             out[name] = key
             ctx.violation(key, "directed history %s: %s" % (name, v["what"]), v["files"])
     cov["directed_histories"] = out
